@@ -2,6 +2,7 @@
 import os
 import sys
 
+from .. import adapters as A
 from .. import labelled as L
 from .. import spaces
 from ..refmodel import unordered, dtl
@@ -40,7 +41,7 @@ def slices(tier):
     if tier == "quick":
         quick_menu = [core[0], core[2], core[4], core[7]]
         return [
-            ("U3x3x3", spaces.shape_pairs(3, 3), u3, quick_menu[:3]),
+            ("U3x3x3", spaces.shape_pairs(3, 3), u3, quick_menu[:3] + [core[6]]),   # core[6]: hgt = 0
             # 4 object leaves: two INHERIT siblings below a node that gains a family (shared-set hazards)
             ("U4x2x2", spaces.shape_pairs(4, 2, min_obj=4), u2, [core[1], core[0]]),
             # 5 object leaves in a chain: four nested ancestors (an INHERIT node above an INHERIT node that gains a family)
@@ -63,6 +64,13 @@ def plan(tier, seed):
     out = []
     for name, pairs, menu, costs in slices(tier):
         out.extend(L.split_plan(name, pairs, menu, 150, {"costs": costs}))
+    # operation histories on one shared input object per shape pair (see C02)
+    core = [c for c in spaces.CV_CORE if spaces.coherent(c)]
+    u2 = spaces.unordered_syntenies(2)
+    for k, (osh, ssh) in enumerate(spaces.shape_pairs(3, 3, min_obj=2)):
+        out.append({"slice": "session:U3x3x2", "osh": osh, "ssh": ssh, "menu": u2,
+                    "costs": [core[0], core[6]] if tier == "quick" else [core[0], core[6], core[4], core[1]],
+                    "session": True, "unnamed": bool(k % 2)})
     return out
 
 
@@ -81,6 +89,7 @@ def run_shard(shard, tier, seed):
     viols = []
     samples = []
     counters = {"solver_runs": 0, "oracle_brute": 0, "oracle_bellman": 0}
+    sess = A.Session(O, S, labelled=True, unordered=True, unnamed=shard.get("unnamed", False)) if shard.get("session") else None
     for leafmap, leafsyn in L.labelled_inputs(O, S, shard["menu"], shard.get("part")):
         n_inputs += 1
         is_nt = nontrivial(O, leafsyn)
@@ -93,14 +102,18 @@ def run_shard(shard, tier, seed):
                 for policy in ("ALL", "ANY"):
                     n_eval += 1
                     counters["solver_runs"] += 1
-                    bad = c02.check_case(algo, O, S, leafmap, leafsyn, costs, policy, None, orc)
+                    bad = c02.check_case(algo, O, S, leafmap, leafsyn, costs, policy, None, orc, session=sess)
                     if bad:
                         vtotal += 1
                         if len(viols) < 8 and not any(v["subcheck"] == bad[0] and v["case"]["algorithm"] == algo
                                                       for v in viols):
-                            viols.append({"property": PROP, "subcheck": bad[0],
-                                          "case": L.case_json(osh, ssh, leafmap, leafsyn, costs, algo, policy),
-                                          "detail": bad[1], "traceback": bad[2]})
+                            case = L.case_json(osh, ssh, leafmap, leafsyn, costs, algo, policy)
+                            detail = bad[1]
+                            if sess is not None:
+                                case["session_shard"] = A.pack(shard)
+                                detail = f"call #{sess.calls} on the shared input object (state updated in place): " + detail
+                            viols.append({"property": PROP, "subcheck": ("session_" if sess else "") + bad[0],
+                                          "case": case, "detail": detail, "traceback": bad[2]})
         if not samples:
             samples.append(L.case_json(osh, ssh, leafmap, leafsyn, shard["costs"][0], "superdtl", "ALL"))
     return {"evaluations": n_eval, "inputs": n_inputs, "nontrivial": nt, "samples": samples,
@@ -109,6 +122,8 @@ def run_shard(shard, tier, seed):
 
 def replay(v):
     case = v["case"]
+    if case.get("session_shard"):
+        return c02.replay_session(sys.modules[__name__], v)
     osh, ssh, O, S, leafmap, leafsyn, costs, rootsyn = L.case_from_json(case)
     orc = L.oracle(case["algorithm"], O, S, leafmap, leafsyn, costs, brute=len(O.leaves) <= 4)
     bad = c02.check_case(case["algorithm"], O, S, leafmap, leafsyn, costs, case["policy"], None, orc)
